@@ -131,8 +131,27 @@ func (p *parser) parseIPv4Number(u *Url, input string) (number int64, validation
 		validationError = true
 		return
 	}
+	// Only radix-R digits are a number: strconv.ParseInt would also accept a sign, and reports
+	// a range error before it notices a later non-digit.
+	for _, c := range []byte(input) {
+		if !isRadixDigit(c, R) {
+			err = &strconv.NumError{Func: "ParseInt", Num: input, Err: strconv.ErrSyntax}
+			return
+		}
+	}
 	number, err = strconv.ParseInt(input, R, 64)
 	return
+}
+
+func isRadixDigit(c byte, radix int) bool {
+	switch radix {
+	case 8:
+		return c >= '0' && c <= '7'
+	case 10:
+		return c >= '0' && c <= '9'
+	default:
+		return ASCIIHexDigit.Test(uint(c))
+	}
 }
 
 func (p *parser) parseIPv4(u *Url, input string) (string, error) {
